@@ -297,6 +297,21 @@ def eval_cases(outdir, meta, timeout=1500):
                 outp.close()
                 results[i] = (rc, f)
         running = still
+    # a shard whose coqc was killed by a signal (rc < 0: the kernel's OOM killer on a loaded machine) or that ran
+    # into the shared time limit while 16 shards competed says nothing about the property: evaluate it again, alone
+    for i, f in enumerate(files):
+        if results[i][0] < 0 or results[i][0] == 124:
+            for _attempt in range(2):
+                (_, _, p, outp) = launch(i, f)
+                try:
+                    rc2 = p.wait(timeout=timeout)
+                except subprocess.TimeoutExpired:
+                    p.kill()
+                    rc2 = 124
+                outp.close()
+                results[i] = (rc2, f)
+                if rc2 >= 0 and rc2 != 124:
+                    break
     sizes = []
     for f in files:
         txt = open(os.path.join(outdir, f)).read()
